@@ -29,8 +29,8 @@ RULE = ('corpus; hostile sweep (every entry of a hostile alphabet through the fi
         'shape, 0 and 1 nodes, invalid and empty dendrograms, n_clusters out of range: "raises iff raises" is compared, '
         'not the exception class); deterministic option matrix (every display option of the three entry points at '
         'least once, on a graph with unsorted indices, a stored zero and a negative weight, and on a symmetric graph, '
-        'names as list / object array / str array); near-coincident positions (2^-60 … of the span; run line skipped, '
-        'edge count bounded); all digraphs n<=3 x 4 position patterns x directed in {None,True,False} with hostile '
+        'names as list / object array / str array, hostile colour strings); positions at and below the float64 resolution '
+        'of the layout and on the same pixel (domain decided per case); all digraphs n<=3 x 4 position patterns x directed in {None,True,False} with hostile '
         'names; 40/1500 digraphs n=4; 70/700 structured random graphs n<=10 (explicit zeros, unsorted indices, '
         'int/bool/float and signed weights) with random option bundles; all 0/1 biadjacency matrices up to 2x3 + 50/500 '
         'random bigraphs (stored zeros, signed); 120/1500 random valid dendrograms 2..9 leaves; a second configuration '
@@ -46,7 +46,8 @@ ASSUMPTIONS = ['numbers are abstract tokens: the model is compared with the impl
                'CSR input has no duplicate entries (the model answers OutOfModel on them; none is generated)',
                'the coincidence test of svg_edge_directed is taken on float64 images of the positions, the model takes it '
                'in exact arithmetic: they agree when the rescaled float64 images of distinct positions are distinct; '
-               'the near-coincident stream records where they are not (known finding F-C20-subresolution); Spring '
+               'a case where they are not (decided per case from float64 images computed by the harness) is outside the domain: '
+               'its run line is skipped and its spec line is evaluated on the positions as drawn (counted in the evidence); Spring '
                'layouts are random floats (collision probability negligible)',
                'exception classes are not compared (raises iff raises is)',
                'the XML recogniser accepts a subset of XML 1.0 (no prolog / comments / PI / CDATA, ASCII names); expat '
@@ -92,21 +93,30 @@ def enc_names(names):
     return ';'.join(enc_str(str(x)) for x in names) if len(names) else '-'
 
 
-def enc_labels(lab):
+def _ix(k, n):
+    """numpy's reading of an index into an axis of length n (external): k in [-n, -1] is n + k; anything else out of
+    range is sent as an index that is out of range for the model too"""
+    k = int(k)
+    if k >= 0:
+        return k
+    return n + k if n + k >= 0 else n + 10 ** 6
+
+
+def enc_labels(lab, n=0):
     if lab is None:
         return '_'
     kind, v = lab
     if kind == 'D':
-        return 'D' + ','.join('%d:%d' % (int(k), int(x)) for k, x in v)
+        return 'D' + ','.join('%d:%d' % (_ix(k, n), int(x)) for k, x in v)
     return kind + ','.join(str(int(x)) for x in v)
 
 
-def enc_scores(sc):
+def enc_scores(sc, n=0):
     if sc is None:
         return '_'
     kind, v = sc
     if kind == 'D':
-        return 'D' + ','.join(str(int(k)) for k, _ in v)
+        return 'D' + ','.join(str(_ix(k, n)) for k, _ in v)
     return kind + str(len(v))
 
 
@@ -203,6 +213,7 @@ def cleanup():
 
 _FILE_NO = [0]
 SKIPS = {}
+OBS = {}
 
 
 def _skip(why):
@@ -219,7 +230,8 @@ def call_impl(f, kwargs, with_file):
     try:
         with np.errstate(all='ignore'):
             doc = f(**kwargs)
-    except (ValueError, IndexError, TypeError, KeyError, ZeroDivisionError, UnicodeError) as e:
+    except (ValueError, IndexError, TypeError, KeyError, ZeroDivisionError, UnicodeError, AttributeError,
+            NotImplementedError) as e:
         return 'err ' + type(e).__name__, None, None
     content = None
     if path is not None:
@@ -265,11 +277,21 @@ def _names_arg(desc, as_array):
     return np.array(names, dtype=object)
 
 
-def _matrix(shape, indptr, indices, data, dtype):
+CONTAINERS = {'csr': lambda m: m, 'csc': sparse.csc_matrix, 'coo': sparse.coo_matrix, 'lil': sparse.lil_matrix,
+              'dok': sparse.dok_matrix, 'csr_array': sparse.csr_array, 'dense': lambda m: m.toarray()}
+
+
+def _matrix(shape, indptr, indices, data, dtype, container='csr'):
     dt = {'float': float, 'int': int, 'bool': bool}[dtype]
     m = sparse.csr_matrix((np.array(data, dtype=dt), np.array(indices, dtype=np.int32),
                            np.array(indptr, dtype=np.int32)), shape=tuple(shape))
-    return m
+    return CONTAINERS[container](m)
+
+
+def _stored(m):
+    """the stored entries, in the order of the CSR copy the drawing functions work on (scipy is external)"""
+    c = sparse.csr_matrix(m, copy=True)
+    return _entries(c.indptr.tolist(), c.indices.tolist(), [Fraction(float(v)) for v in c.data])
 
 
 def _entries(indptr, indices, data):
@@ -359,8 +381,9 @@ def graph_case(desc):
     es = []
     adj = None
     if has_adj:
-        adj = _matrix((n, n), desc['indptr'], desc['indices'], desc['data'], desc.get('dtype', 'float'))
-        es = _entries(adj.indptr.tolist(), adj.indices.tolist(), [Fraction(float(v)) for v in adj.data])
+        adj = _matrix((n, n), desc['indptr'], desc['indices'], desc['data'], desc.get('dtype', 'float'),
+                      desc.get('container', 'csr'))
+        es = _stored(adj)
         kwargs['adjacency'] = adj
     pos = desc['position']
     if pos is not None:
@@ -370,7 +393,7 @@ def graph_case(desc):
         mpos = []           # neither adjacency nor position: the code raises
     else:
         # Spring is external: its layout is an input of the model
-        tmp = adj.copy()
+        tmp = sparse.csr_matrix(adj, copy=True)
         tmp.eliminate_zeros()
         np.random.seed(desc['spring_seed'])
         try:
@@ -389,16 +412,16 @@ def graph_case(desc):
         toks.append('name_position=' + (o['name_position'] if o['name_position'] in ('left', 'right', 'above', 'below') else 'other'))
     if o.get('labels') is not None:
         kwargs['labels'] = _labels_arg(o['labels'])
-        toks.append('labels=' + enc_labels(o['labels']))
+        toks.append('labels=' + enc_labels(o['labels'], n))
     if o.get('scores') is not None:
         kwargs['scores'] = _scores_arg(o['scores'])
-        toks.append('scores=' + enc_scores(o['scores']))
+        toks.append('scores=' + enc_scores(o['scores'], n))
     if o.get('probs') is not None:
         kwargs['probs'] = _probs_arg(o['probs'], n)
         toks.append('probs=' + enc_probs(o['probs']))
     if o.get('node_order') is not None:
         kwargs['node_order'] = np.array(o['node_order'], dtype=int)
-        toks.append('node_order=' + (','.join(str(i) for i in o['node_order']) if o['node_order'] else '-'))
+        toks.append('node_order=' + (','.join(str(_ix(i, n)) for i in o['node_order']) if o['node_order'] else '-'))
     for k in ('seeds', 'margin_text', 'node_size_min', 'node_width', 'node_width_max', 'edge_width', 'edge_width_min',
               'edge_width_max', 'display_edge_weight'):
         if k in o:
@@ -431,25 +454,92 @@ def graph_case(desc):
     ans, doc, content = call_impl(f, kwargs, desc.get('file', False))
     # the count statement is about a canvas with a non-zero dimension and scale, and nodes inside the layout
     degenerate = not ((o.get('width', 400) or o.get('height', 300)) and o.get('scale', 1))
-    near = desc.get('near')
-    extra = []
-    if near:
-        # positions closer than the resolution of float64 after rescaling: the exact model does not describe the float
-        # decision; the count of edge paths must lie between "these nodes coincide" and "they do not"
-        lo = [list(p) for p in pos]
-        for i, j in near:
-            lo[j] = lo[i]
-        extra = ['pos_lo=' + enc_pos([(Fraction(x), Fraction(y)) for x, y in lo])]
+    # domain of the model: the float64 images of distinct positions are distinct (see `_float_images`)
+    extra, run = [], True
+    cls = _float_classes(mpos, o, names, eff_dnw) if (doc is not None and not degenerate) else None
+    if cls is not None and any(mpos[k] != mpos[c] for k, c in enumerate(cls)):
+        # two nodes given distinct positions are drawn at the same float64 point: outside the domain of the exact
+        # model (run line not compared); the specification is evaluated on the positions *as drawn*
+        OBS['domain:float-images-collide'] = OBS.get('domain:float-images-collide', 0) + 1
+        run = False
+        extra = ['pos=' + enc_pos([mpos[c] for c in cls])]
     return _mk_case('graph', 'visualize_graph', desc, toks, ans, doc, content, spec=not degenerate,
-                    run=not near, spec_extra=extra)
+                    run=run, spec_extra=extra)
+
+
+def _float_images(position, o, names, dnw):
+    """float64 images of the positions: `rescale` then `position *= scale`, written here a second time with numpy
+    (same operations in the same order) — an observation of where float64 puts the nodes, independent of the code
+    under test"""
+    position = np.array(position, dtype=float)
+    width, height = o.get('width', 400), o.get('height', 300)
+    margin, node_size, node_size_max = o.get('margin', 20), o.get('node_size', 7), o.get('node_size_max', 20)
+    font_size, name_position = o.get('font_size', 12), o.get('name_position', 'right')
+
+    def mm(v):
+        v = v.astype(float)
+        v_min, v_max = np.min(v), np.max(v)
+        v -= v_min
+        if v_max > v_min:
+            v /= (v_max - v_min)
+        else:
+            v = .5 * np.ones_like(v)
+        return v
+    x = position[:, 0]
+    y = position[:, 1]
+    span_x = np.max(x) - np.min(x)
+    span_y = np.max(y) - np.min(y)
+    x = mm(x)
+    y = 1 - mm(y)
+    pos = np.vstack((x, y)).T
+    if width and not height:
+        height = width
+        if span_x and span_y:
+            height *= span_y / span_x
+    elif height and not width:
+        width = height
+        if span_x and span_y:
+            width *= span_x / span_y
+    pos = pos * np.array([width, height])
+    if names is not None:
+        lengths = np.array([len(str(name)) for name in names])
+        if name_position == 'left':
+            m = -np.min(pos[:, 0] - lengths * font_size)
+            pos[:, 0] += m * (m > 0)
+        elif name_position == 'right':
+            pass
+        else:
+            m = -np.min(pos[:, 0] - lengths * font_size / 2)
+            pos[:, 0] += m * (m > 0)
+            if name_position == 'above':
+                pos[:, 1] += font_size
+    pos += max(margin, node_size_max * dnw, node_size)
+    pos *= o.get('scale', 1)
+    return pos
+
+
+def _float_classes(mpos, o, names, dnw):
+    """for every node the first node drawn at the same float64 point; None when the layout cannot be computed"""
+    try:
+        with np.errstate(all='ignore'):
+            img = _float_images([[float(x), float(y)] for x, y in mpos], o, names, dnw)
+    except Exception:
+        return None
+    if not np.all(np.isfinite(img)):
+        return None
+    cls = []
+    for k in range(len(img)):
+        cls.append(next(c for c in range(k + 1) if img[c][0] == img[k][0] and img[c][1] == img[k][1]))
+    return cls
 
 
 def bigraph_case(desc):
     from sknetwork.visualization import visualize_bigraph, svg_bigraph
     o = desc['opts']
     nr, nc = desc['shape']
-    b = _matrix((nr, nc), desc['indptr'], desc['indices'], desc['data'], desc.get('dtype', 'float'))
-    es = _entries(b.indptr.tolist(), b.indices.tolist(), [Fraction(float(v)) for v in b.data])
+    b = _matrix((nr, nc), desc['indptr'], desc['indices'], desc['data'], desc.get('dtype', 'float'),
+                desc.get('container', 'csr'))
+    es = _stored(b)
     kwargs = {'biadjacency': b}
     toks = ['n_row=%d' % nr, 'n_col=%d' % nc, 'es=' + enc_entries(es)]
     for side in ('row', 'col'):
@@ -459,10 +549,10 @@ def bigraph_case(desc):
         toks.append('names_%s=%s' % (side, enc_names(names)))
         if o.get('labels_' + side) is not None:
             kwargs['labels_' + side] = _labels_arg(o['labels_' + side])
-            toks.append('labels_%s=%s' % (side, enc_labels(o['labels_' + side])))
+            toks.append('labels_%s=%s' % (side, enc_labels(o['labels_' + side], nr if side == 'row' else nc)))
         if o.get('scores_' + side) is not None:
             kwargs['scores_' + side] = _scores_arg(o['scores_' + side])
-            toks.append('scores_%s=%s' % (side, enc_scores(o['scores_' + side])))
+            toks.append('scores_%s=%s' % (side, enc_scores(o['scores_' + side], nr if side == 'row' else nc)))
         if o.get('probs_' + side) is not None:
             kwargs['probs_' + side] = _probs_arg(o['probs_' + side], nr if side == 'row' else nc)
             toks.append('probs_%s=%s' % (side, enc_probs(o['probs_' + side])))
@@ -475,6 +565,8 @@ def bigraph_case(desc):
             kwargs['node_weights_' + side] = np.array(o['node_weights_' + side], dtype=float)
         if o.get('position_' + side) is not None:
             kwargs['position_' + side] = np.array(o['position_' + side], dtype=float)
+    if o.get('position_row') is not None and o.get('position_col') is not None:
+        toks.append('pos_len=%d' % (len(o['position_row']) + len(o['position_col'])))
     for k in ('reorder', 'margin_text', 'node_size_min', 'node_width', 'node_width_max', 'edge_width', 'edge_width_min',
               'edge_width_max', 'display_edge_weight', 'display_node_weight'):
         if k in o:
@@ -553,7 +645,8 @@ def _mk_case(cmd, entry, desc, toks, ans, doc, content, spec=True, run=True, spe
     impl = 'ok ' + enc_doc(canon(doc))
     spec_line = None
     if spec:
-        spec_line = 'c20.spec_%s %s %s expat=%d doc=%s' % (cmd, args, ' '.join(spec_extra), int(expat_ok(doc)),
+        # (the first occurrence of a key wins: `spec_extra` overrides what the run line says)
+        spec_line = 'c20.spec_%s %s %s expat=%d doc=%s' % (cmd, ' '.join(spec_extra), args, int(expat_ok(doc)),
                                                         enc_doc(doc))
     else:
         # outside the domain of the count statement: the returned string must still be a well-formed document
@@ -577,14 +670,41 @@ def _all_names(desc):
 def _same(c, model, impl, spec_ok):
     if c.canon == 'doc' and model.startswith('ok ') and impl.startswith('ok '):
         return canon(dec_doc(model[3:])) == dec_doc(impl[3:])
-    if model.startswith('err ') and impl.startswith('err '):
+    if model.startswith('err ') and impl.startswith('err ') and model != 'err OutOfModel':
         # "raises iff raises" is what is compared; the exception class belongs to numpy / scipy, not to the property
+        # (the number of class differences goes into the evidence)
+        CLASS_DIFF[0] += 1
         return True
     return False
 
 
+class _Lean:
+    """the context handed to vlib's `evaluate`: answers `holds <remark>` are counted and read as `holds`"""
+
+    def __init__(self, ctx):
+        self._ctx = ctx
+
+    def __getattr__(self, k):
+        return getattr(self._ctx, k)
+
+    def lean(self, lines):
+        out = []
+        for a in self._ctx.lean(lines):
+            if a.startswith('holds '):
+                self._ctx.count('spec:' + a[6:])
+                a = 'holds'
+            out.append(a)
+        return out
+
+
+CLASS_DIFF = [0]
+
+
 def evaluate(ctx, cases):
-    _evaluate(ctx, [c for c in cases if c is not None], same=_same)
+    CLASS_DIFF[0] = 0
+    _evaluate(_Lean(ctx), [c for c in cases if c is not None], same=_same)
+    if CLASS_DIFF[0]:
+        ctx.count('exit-class-differs', CLASS_DIFF[0])
 
 
 # ---- generators ----------------------------------------------------------------------------------
@@ -1097,6 +1217,25 @@ def degenerate_graph_descs():
     add(position=[[0, 0], [1, 0]])
     add(position=[[0, 0], [1, 0], [2, 1], [3, 3]])
     add({}, position=[[0, 0], [1, 0]], names=_names('a', 'b', 'c'))
+    # numpy reads negative indices from the end
+    add({'labels': ['D', [[-1, 2]]]})
+    add({'labels': ['D', [[-4, 2]]]})
+    add({'scores': ['D', [[-1, 0.5], [0, 1.0]]]})
+    add({'node_order': [-1, -2, -3]})
+    add({'node_order': [-4]})
+    add({'node_order': [-1, 0]}, names=_names('a', 'b', 'c'))
+    # one node, several names: numpy broadcasts the lengths the other way round and the code returns
+    for npos in ('left', 'right', 'above', 'below'):
+        out.append({'f': 'visualize_graph', 'n': 1, 'indptr': [0, 1], 'indices': [0], 'data': [1], 'position': [[5, 5]],
+                    'names': _names('a', 'b<', 'c'), 'opts': {'name_position': npos}, 'file': False,
+                    'sig': {'stream': 'degenerate'}})
+    # every container scipy offers, with and without edge labels
+    for cont in ('csc', 'coo', 'lil', 'dok', 'csr_array', 'dense'):
+        for o in ({}, {'edge_labels': [[0, 1, 1], [0, 2, 2]]}, {'directed': True, 'edge_labels': [[2, 0, 3]]}):
+            d = _g(3, [(0, 2), (0, 1), (1, 2), (2, 1)], [2, 1, 0, 3], container=cont)
+            d['opts'] = dict(o)
+            d['sig'] = {'stream': 'degenerate', 'container': cont}
+            out.append(d)
     out.append({'f': 'visualize_graph', 'n': 0, 'indptr': [0], 'indices': [], 'data': [], 'position': [], 'opts': {},
                 'file': False, 'sig': {'stream': 'degenerate'}})
     out.append({'f': 'visualize_graph', 'n': 3, 'indptr': None, 'indices': None, 'data': None, 'position': None,
@@ -1145,6 +1284,19 @@ def degenerate_bigraph_descs():
             add(names_col=_names(*nm), names_array=arr)
     add(shape=[0, 2], indptr=[0], indices=[], data=[])
     add(shape=[2, 0], indptr=[0, 0, 0], indices=[], data=[])
+    # an empty side with an empty list of names
+    add(shape=[0, 2], indptr=[0], indices=[], data=[], names_row=[])
+    add(shape=[2, 0], indptr=[0, 0, 0], indices=[], data=[], names_col=[])
+    add(shape=[0, 2], indptr=[0], indices=[], data=[], names_col=_names('a', 'b'))
+    # positions of the wrong length
+    add({'position_row': [[0, 0]], 'position_col': [[1, 0], [1, 1], [1, 2]]})
+    add({'position_row': [[0, 0], [0, 1]], 'position_col': [[1, 0]]})
+    add({'position_row': [[0, 0], [0, 1], [0, 2]], 'position_col': [[1, 0], [1, 1], [1, 2]]})
+    add({'position_row': [], 'position_col': []})
+    add({'position_row': [[0, 0], [0, 1]]})                                # only one side given: ignored
+    add({'labels_row': ['D', [[-1, 1]]], 'scores_col': ['D', [[-3, 0.5]]]})
+    for cont in ('csc', 'coo', 'lil', 'dok', 'csr_array', 'dense'):
+        add({'edge_labels': [[0, 2, 1], [1, 0, 3]]}, container=cont, sig={'stream': 'degenerate', 'container': cont})
     add(shape=[0, 0], indptr=[0], indices=[], data=[])
     add(shape=[1, 1], indptr=[0, 1], indices=[0], data=[0])
     return out
@@ -1293,18 +1445,28 @@ def option_matrix_descs():
     return out
 
 
-# -- positions closer than the resolution of float64 after rescaling --------------------------------------------------
+# -- positions at and below the resolution of float64 after rescaling -------------------------------------------------
 def near_coincident_descs():
+    """Ordinary cases (ordinary signature): whether a pair is inside the model's domain is decided per case from the
+    float64 images (`_float_classes`), not by this generator."""
     out = []
     base = dict(n=3, indptr=[0, 1, 2, 2], indices=[1, 0], data=[1, 1])
-    for eps, tag in ((2.0 ** -60, '2^-60'), (2.0 ** -50, '2^-50'), (2.0 ** -700, '2^-700'), (1e-17, '1e-17')):
-        for pos, near in (([[0, 0], [eps, 0], [1, 1]], [[0, 1]]), ([[0, 0], [0, eps], [1, 1]], [[0, 1]]),
-                          ([[1, 1], [1 + eps * 2 ** 53, 1], [0, 0]], [[0, 1]])):
-            for directed in (True, False):
-                d = {'f': 'visualize_graph', 'position': pos, 'near': near, 'opts': {'directed': directed},
-                     'file': False, 'sig': {'positions': 'sub-resolution', 'eps': tag}}
-                d.update(base)
-                out.append(d)
+    layouts = []
+    for eps in (2.0 ** -60, 2.0 ** -50, 2.0 ** -700, 1e-17, 1e-6, 1e-3):
+        layouts += [[[0, 0], [eps, 0], [1, 1]], [[0, 0], [0, eps], [1, 1]]]
+    layouts += [[[1, 1], [1 + 2.0 ** -52, 1], [0, 0]], [[1, 1], [1, 1 + 2.0 ** -30], [0, 0]],
+                [[2.0 ** 60, 0], [2.0 ** 60 + 256, 0], [0, 1]], [[2.0 ** 60, 0], [2.0 ** 60 + 2.0 ** 20, 0], [0, 1]]]
+    k = 0
+    for pos in layouts:
+        for directed in (True, False, None):
+            k += 1
+            o = {} if directed is None else {'directed': directed}
+            if k % 4 == 0:
+                o['width'], o['height'] = 1, 1            # every node on the same few pixels
+            d = {'f': 'visualize_graph', 'position': pos, 'opts': o, 'file': False,
+                 'names': _names('a', 'b<', 'c') if k % 3 == 0 else None, 'sig': {'stream': 'near-coincident'}}
+            d.update(base)
+            out.append(d)
     return out
 
 
@@ -1406,10 +1568,13 @@ def run(ctx):
         descs += gen_bigraph_cases(ctx)
         descs += gen_dendro_cases(ctx)
         SKIPS.clear()
+        OBS.clear()
         cases = cases_of(descs) + locale_cases(ctx, in_locale + locale_descs())
         for why, k in SKIPS.items():
             ctx.count('skipped:' + why, k)
             ctx.note('%d case(s) skipped: %s' % (k, why))
+        for what, k in OBS.items():
+            ctx.count(what, k)
         for c in cases:      # which exits were reached (goes into the evidence)
             if str(c.impl).startswith('err '):
                 ctx.count('exit:%s:%s' % (c.sig.get('entry'), c.impl[4:]))
